@@ -593,7 +593,11 @@ pub fn finish_check(out: CheckOut, tier: Tier, seed: u64, wall: Instant) -> i32 
         for h in harness.iter().take(5) {
             eprintln!("harness error: {h}");
         }
-        return 2;
+        // a violation with a replay file stands on its own: code that breaks a property often
+        // also trips the harness' expectations about operations that must succeed
+        if exit != 1 {
+            return 2;
+        }
     }
     // evidence
     let mut total = Stats::default();
